@@ -187,38 +187,27 @@ impl<'a> Tokenizer<'a> {
         if let Some(b'+' | b'-') = self.chars.clone().next() {
             return Err(ErrorCode::NumericDataError);
         }
-        let options = lexical_core::ParseIntegerOptions::new();
-        let (n, len) = match radix {
-            b'H' | b'h' => {
-                const FORMAT: u128 = lexical_core::NumberFormatBuilder::from_radix(16);
-                lexical_core::parse_partial_with_options::<u64, FORMAT>(
-                    self.chars.as_slice(),
-                    &options,
-                )
-            }
-            b'Q' | b'q' => {
-                const FORMAT: u128 = lexical_core::NumberFormatBuilder::from_radix(8);
-                lexical_core::parse_partial_with_options::<u64, FORMAT>(
-                    self.chars.as_slice(),
-                    &options,
-                )
-            }
-            b'B' | b'b' => {
-                const FORMAT: u128 = lexical_core::NumberFormatBuilder::from_radix(2);
-                lexical_core::parse_partial_with_options::<u64, FORMAT>(
-                    self.chars.as_slice(),
-                    &options,
-                )
-            }
+        let radix: u32 = match radix {
+            b'H' | b'h' => 16,
+            b'Q' | b'q' => 8,
+            b'B' | b'b' => 2,
             _ => return Err(ErrorCode::NumericDataError),
+        };
+        // Accumulate the digits exactly; a literal that does not fit 64 bits is out of range
+        // (lexical-core misses some of these, e.g. 22 octal digits, and returns a wrapped value)
+        let mut n: u64 = 0;
+        let mut len = 0usize;
+        for c in self.chars.as_slice() {
+            let d = match (*c as char).to_digit(radix) {
+                Some(d) => d,
+                None => break,
+            };
+            n = n
+                .checked_mul(radix as u64)
+                .and_then(|n| n.checked_add(d as u64))
+                .ok_or(ErrorCode::DataOutOfRange)?;
+            len += 1;
         }
-        .map_err(|e| match e {
-            lexical_core::Error::InvalidDigit(_) => ErrorCode::InvalidCharacterInNumber,
-            lexical_core::Error::Overflow(_) | lexical_core::Error::Underflow(_) => {
-                ErrorCode::DataOutOfRange
-            }
-            _ => ErrorCode::NumericDataError,
-        })?;
         if len > 0 {
             self.chars.nth(len - 1).unwrap();
             let ret = Token::NonDecimalNumericProgramData(n);
